@@ -323,6 +323,8 @@ def rule_keys(ctx, rep, rid="R-C08-keys", files=None, floor=15, what="every name
         inst = "%s<%s>%s" % (key[0], k, ("@" + key[2]) if len(key) > 2 else "")
         if k in ALLOWED_KEYS or k.startswith("petgraph::graph_impl::NodeIndex"):
             r.ok(inst, where)
+        elif re.fullmatch(r"(?:usize|isize|[iu](?:8|16|32|64|128))", k):
+            r.ok(inst, where, "keyed by a number (a position or an index): no spelling involved")
         else:
             r.finding(inst, where, "table keyed by %s: lookups become sensitive to the spelling of identifiers" % k)
     # phf keyword/stdlib sets must be queried with the lower-cased spelling
